@@ -465,10 +465,12 @@ def judge(case):
 def plan(tier, seed):
     names = sorted(object_types())
     nsh = 32
-    return [dict(name="types-%d" % i, kind="types", types=names[i::nsh], n=200 if tier == "quick" else 2500) for i in range(nsh)]
+    return [dict(name="types-%d" % i, kind="types", types=names[i::nsh], n=200 if tier == "quick" else 2500) for i in range(nsh)] + \
+           [dict(name="sweep-%d" % i, kind="sweep", types=names[i::nsh], n=6 if tier == "quick" else 60) for i in range(nsh)]
 
 
-def history_strategy(otype):
+def history_strategy(otype, focus=None):
+    """focus = a property identifier: it is always configured present and writable, and the history begins by writing and reading it"""
     from hypothesis import strategies as st
     cls = object_types()[otype]
     plist = props_of(cls)
@@ -480,6 +482,11 @@ def history_strategy(otype):
         def one(t):
             pid, dt, opt = t
             return st.tuples(st.just(pid), st.one_of(st.none(), V.strategy(dt, 2)), st.booleans()).map(list)
+        if focus is not None:
+            ft = [t for t in plist if t[0] == focus][0]
+            first = st.tuples(st.just(focus), V.strategy(ft[1], 2), st.just(True)).map(list)
+            rest = st.lists(st.sampled_from(plist), min_size=0, max_size=2, unique_by=lambda t: t[0]).map(lambda ps: [t for t in ps if t[0] != focus])
+            return rest.flatmap(lambda ps: st.tuples(first, *[one(t) for t in ps]).map(list))
         return st.lists(st.sampled_from(plist), min_size=1, max_size=6, unique_by=lambda t: t[0]).flatmap(lambda ps: st.tuples(*[one(t) for t in ps]).map(list))
 
     def ops_s(config):
@@ -517,11 +524,25 @@ def history_strategy(otype):
         ref = st.tuples(st.sampled_from(pids + unknown_pids[:1]), index).map(list)
         alts.append(st.tuples(st.just("rpm"), st.lists(ref, min_size=1, max_size=4), st.sampled_from([False, False, False, True])).map(list))
         alts.append(st.tuples(st.just("rpm"), st.sampled_from([[["all", None]], [["required", None]], [["optional", None]]]), st.sampled_from([False, False, True])).map(list))
+        if focus is not None and focus in wr:
+            dt = dts[focus]
+            head = [st.tuples(st.just("wp"), st.just(focus), V.strategy(dt, 2), st.none(), st.none()).map(list),
+                    st.tuples(st.just("rp"), st.just(focus), st.sampled_from([None, 1, 0, 2])).map(list),
+                    st.tuples(st.just("rpm"), st.sampled_from([[[focus, None]], [[focus, 1]], [[focus, None], [focus, 0]]]), st.just(False)).map(list)]
+            return st.tuples(st.tuples(*head).map(list), st.lists(st.one_of(*alts), min_size=0, max_size=5)).map(lambda t: t[0] + t[1])
         return st.lists(st.one_of(*alts), min_size=1, max_size=10)
     return config_s().flatmap(lambda cfg: ops_s(cfg).map(lambda ops, cfg=cfg: dict(k="h", otype=otype, config=cfg, ops=ops)))
 
 
 def run(spec, ctx):
+    if spec["kind"] == "sweep":
+        # every (object type, property) pair in turn: configured writable, written, read whole / by element / through RPM
+        for otype in spec["types"]:
+            for pid, dt, opt in props_of(object_types()[otype]):
+                s = history_strategy(otype, focus=pid)
+                if s is not None:
+                    ctx.for_all(s, spec["n"], salt=sum(map(ord, otype + pid)))
+        return
     for otype in spec["types"]:
         s = history_strategy(otype)
         if s is None:
